@@ -20,7 +20,11 @@ def run(ctx):
     RL.reductions_never_shrink(ctx, "R02.f")
     RL.reduce_equal_length(ctx, "R02.f")
     RL.table_rules(ctx, "R11.a", "R11.b", "R11.c", "R11.d", "R11.g")
-    return info("R02.a: every return path of the title builder returns the one String that passed retain(ch != '\\0') after its "
+    from . import r_word as RW
+    RW.record_source_unchanged(ctx, "R02.g")
+    RW.normalize_next_lengths(ctx, "R02.h")
+    return info("R02.g: Record::new tokenises its `source` parameter as it is and stores the result; R02.h: Normalize::next tries every prefix of the window (lengths window.len()..1) on every path that yields an item. "
+                "R02.a: every return path of the title builder returns the one String that passed retain(ch != '\\0') after its "
                 "last write; R02.c: the copied slices of hit.title.source tile [0, len) on every path; R09.a: markers are confined to "
                 "left/slice/right triples; R02.b: id provenance record_id -> Record.id -> Hit.id -> SearchResult.id of the same hit, "
                 "positions map to self.records[ix]; R02.d: marker pair provenance; R02.e: the WASM bridge frames every title with a trailing NUL and the JS wrapper splits on NUL; R02.f: normalize pairs source/chars correctly "
